@@ -108,6 +108,6 @@ def smb2_negotiate(dialects=(0x0202, 0x0210), count=None, guid=b"G" * 16, **hdr)
     return nbt(smb2_header(0, **hdr) + body)
 
 
-def smb2_session_setup(blob=b"\x60\x28" + b"B" * 40, **hdr):
-    body = struct.pack("<HBBIIHHQ", 25, 0, 1, 1, 0, 88, len(blob), 0) + blob
+def smb2_session_setup(blob=b"\x60\x28" + b"B" * 40, prev=0, **hdr):
+    body = struct.pack("<HBBIIHHQ", 25, 0, 1, 1, 0, 88, len(blob), prev) + blob
     return nbt(smb2_header(1, **hdr) + body)
